@@ -11,7 +11,22 @@ import (
 	"sort"
 	"strconv"
 	"strings"
+	"syscall"
 )
+
+// protocolOut is the harness's own output channel: the original stdout. File descriptor 1 itself is
+// re-pointed at stderr so that the repository's logger (which prints to stdout) cannot corrupt the
+// case protocol.
+func protocolOut() *os.File {
+	fd, err := syscall.Dup(1)
+	if err != nil {
+		return os.Stdout
+	}
+	if err := syscall.Dup2(2, 1); err != nil {
+		return os.Stdout
+	}
+	return os.NewFile(uintptr(fd), "protocol-out")
+}
 
 // Rng is splitmix64: every random choice of a run derives from one seed.
 type Rng struct{ s uint64 }
@@ -94,7 +109,7 @@ func Main(gen func(rng *Rng, tier string, emit func(string)), run func(input str
 		fmt.Fprintln(os.Stderr, "usage: gen --seed N --tier T | run")
 		os.Exit(2)
 	}
-	w := bufio.NewWriterSize(os.Stdout, 1<<20)
+	w := bufio.NewWriterSize(protocolOut(), 1<<20)
 	defer w.Flush()
 	switch os.Args[1] {
 	case "gen":
